@@ -5,8 +5,8 @@ ID = "C08"
 COQ_REQUIRE = ["Net", "M_SyncMixin"]
 COQ_CASE_TYPE = "M_SyncMixin.case"
 COQ_CHECK = "M_SyncMixin.check_case"
-OBLIGATIONS = ["sync_no_error", "sync_round_inputs", "sync_rounds_consecutive", "sync_neighbours_one_apart",
-               "sync_never_stuck"]
+OBLIGATIONS = ["sync_no_error", "sync_round_inputs", "sync_log_unique", "sync_rounds_consecutive",
+               "sync_neighbours_one_apart", "sync_never_stuck"]
 N_QUICK, N_THOROUGH = 300, 4000
 PARALLEL = 8
 RULE = ("random graphs of 1-6 nodes (90% symmetric), a table-driven synchronous test algorithm sending an "
